@@ -113,16 +113,24 @@ func (p *RawParams) AddUpload(upload Upload, key, path string) *gqlerror.Error {
 			return gqlerror.Errorf("path is missing \"variables.\" prefix, key: %s, path: %s", key, path)
 		}
 		if index, parseNbrErr := strconv.Atoi(p); parseNbrErr == nil {
+			list, ok := ptr.([]any)
+			if !ok || index < 0 || index >= len(list) {
+				return gqlerror.Errorf("invalid operations path for key %s: %s", key, path)
+			}
 			if last {
-				ptr.([]any)[index] = upload
+				list[index] = upload
 			} else {
-				ptr = ptr.([]any)[index]
+				ptr = list[index]
 			}
 		} else {
+			m, ok := ptr.(map[string]any)
+			if !ok || (last && m == nil) {
+				return gqlerror.Errorf("invalid operations path for key %s: %s", key, path)
+			}
 			if last {
-				ptr.(map[string]any)[p] = upload
+				m[p] = upload
 			} else {
-				ptr = ptr.(map[string]any)[p]
+				ptr = m[p]
 			}
 		}
 	}
